@@ -259,6 +259,50 @@ pub fn check_code(code: &[u8], permissive: bool, hostile_positions: bool, acc: &
             }
         }
     }
+    // the ordering requirement inside struct types (e.g. the value of a mapping): elements ordered by offset
+    // without repeats
+    fn walk_structs(t: &storage_layout_extractor::tc::abi::AbiType, out: &mut Vec<String>) {
+        use storage_layout_extractor::tc::abi::AbiType as A;
+        match t {
+            A::Struct { elements } => {
+                for w in elements.windows(2) {
+                    if w[0].offset >= w[1].offset {
+                        out.push(format!("struct elements are not in strictly increasing offset order: {} then {}", w[0].offset, w[1].offset));
+                    }
+                }
+                // (offsets of struct elements count bits over all the words of the struct, so they are
+                // not bounded by one word)
+                for e in elements {
+                    walk_structs(&e.typ, out);
+                }
+            }
+            A::Array { tp, .. } | A::DynArray { tp } => walk_structs(tp, out),
+            A::Mapping { key_type, value_type } => {
+                walk_structs(key_type, out);
+                walk_structs(value_type, out);
+            }
+            _ => {}
+        }
+    }
+    for s in slots {
+        let mut problems = vec![];
+        walk_structs(&s.typ, &mut problems);
+        if let Some(p) = problems.first() {
+            acc.label("struct-type-problem");
+            let nested = nested_family(code, &cfg);
+            return CaseResult::Fail(Violation::new(
+                if nested {
+                    "a layout entry lies outside its 256-bit slot (a sub-word taken from a narrower sub-word)".to_string()
+                } else if p.contains("order") {
+                    "the elements of a struct type are not ordered by offset".to_string()
+                } else {
+                    "an element of a struct type ends outside the word".to_string()
+                },
+                format!("slot {:?}: {p}; type {:?}", s.index, s.typ),
+                case,
+            ));
+        }
+    }
     CaseResult::Pass
 }
 
